@@ -48,7 +48,8 @@ def prewarm():
 
 
 def small_term(rng, nv, depth=2, p_var=0.55):
-    t = TM.rnd_term(rng, nv, depth, p_leaf=0.45, p_var=p_var, lists=False)
+    # lists (also with a variable as tail, at any depth) in about a third of the terms
+    t = TM.rnd_term(rng, nv, depth, p_leaf=0.45, p_var=p_var, lists=rng.random() < 0.35)
     return TM.J(_nostr(t))
 
 
